@@ -1,80 +1,96 @@
 // Child module of vhost_user_backend::bitmap.  C15: the page arithmetic of the dirty log, bit-exactly.
+// AtomicBitmapMmap::new needs a GuestMemoryRegion object and SET_LOG_BASE needs GuestMemoryAtomic::memory()
+// (ArcSwap: not compilable by Kani 0.68): both are NOT covered; the bitmaps are built by struct literal with
+// the values `new` computes for a page-aligned region (pages_before_region = start/4096, number_of_pages =
+// len/4096).
 use super::*;
 use std::mem::ManuallyDrop;
-use vm_memory::{GuestAddress, GuestRegionMmap, MmapRegion};
 
-unsafe extern "C" fn one_page(_name: libc::c_int) -> libc::c_long {
-    1 // "page size" 1 for MmapRegion::build_raw's alignment check (the mapping is never dereferenced)
-}
 fn no_alloc_error(_l: std::alloc::Layout) -> ! {
     kani::assume(false);
     loop {}
 }
-static mut BACKING: ([u8; 16], u64) = ([0; 16], 0x6269_746d_6170_0001);
+fn mk_log(init: &[u8; 6]) -> [AtomicU8; 6] {
+    [AtomicU8::new(init[0]), AtomicU8::new(init[1]), AtomicU8::new(init[2]), AtomicU8::new(init[3]), AtomicU8::new(init[4]), AtomicU8::new(init[5])]
+}
 
-// @harness props=C15 tier=quick timeout=900 bound="log window of 4 bytes (32 pages) inside a 6-byte array with guard bytes; one guest region of 1..=40 pages starting at page 0..=39 (page-aligned); symbolic slice base, write offset and length over all of usize; arbitrary initial log contents; every one of the 32 bits checked" stubs="sysconf (page size), handle_alloc_error"
+// @harness props=C15 tier=quick reach=off timeout=900 bound="AtomicBitmapMmap::mark_dirty / dirty_at over a log window of 4 bytes (32 pages) inside a 6-byte array with guard bytes: region of 1..=32 pages starting at page 0..=31 that fits the log (page-aligned), write offset and length over ALL of usize, arbitrary initial log contents, every one of the 32 bits checked" stubs="handle_alloc_error"
 #[kani::proof]
-#[kani::unwind(44)]
-#[kani::stub(libc::sysconf, one_page)]
+#[kani::unwind(36)]
 #[kani::stub(std::alloc::handle_alloc_error, no_alloc_error)]
 fn c15_u_mark_dirty() {
     let init: [u8; 6] = kani::any();
-    let log: [AtomicU8; 6] = [
-        AtomicU8::new(init[0]), AtomicU8::new(init[1]), AtomicU8::new(init[2]),
-        AtomicU8::new(init[3]), AtomicU8::new(init[4]), AtomicU8::new(init[5]),
-    ];
+    let log = mk_log(&init);
     // the mapping is bytes 1..5; bytes 0 and 5 are guards
     // SAFETY: in bounds of `log`
     let logmem = ManuallyDrop::new(Arc::new(MmapLogReg { addr: unsafe { log.as_ptr().add(1) }, len: 4 }));
     let s: usize = kani::any();
     let n: usize = kani::any();
-    kani::assume(s <= 39 && n >= 1 && n <= 40);
-    #[allow(static_mut_refs)]
-    // SAFETY: address only, never dereferenced
-    let region = unsafe { MmapRegion::<()>::build_raw(BACKING.0.as_mut_ptr(), n * 4096, 0, 0) }.unwrap();
-    let gr = ManuallyDrop::new(GuestRegionMmap::new(region, GuestAddress((s * 4096) as u64)).unwrap());
-    let bm = <AtomicBitmapMmap as MemRegionBitmap>::new(&*gr, Arc::clone(&logmem));
-    // C15: accepted iff the log covers the region's highest page
-    let fits = (s + n - 1) / 8 < 4;
-    kani::cover!(fits && n > 8);
-    match bm {
-        Err(e) => {
-            assert!(!fits, "C15: a log large enough for the highest guest page must be accepted");
-            std::mem::forget(e);
-        }
-        Ok(bm) => {
-            assert!(fits, "C15: a log too small for the highest guest page must be rejected");
-            let b = ManuallyDrop::new(BitmapMmapRegion { inner: Arc::new(RwLock::new(Some(bm))), base_address: 0 });
-            let base: usize = kani::any();
-            let sl = ManuallyDrop::new(b.slice_at(base));
-            let off: usize = kani::any();
-            let len: usize = kani::any();
-            sl.mark_dirty(off, len);
-            // oracle: pages of the region touched by [base+off, base+off+len)
-            let start = base.checked_add(off); // slice_at saturates; a saturated base cannot hold further bytes
-            let p: usize = kani::any();
-            kani::assume(p < 32);
-            let before = init[1 + p / 8] & (1 << (p % 8)) != 0;
-            let after = log[1 + p / 8].load(Ordering::Relaxed) & (1 << (p % 8)) != 0;
-            let touched = match start {
-                Some(st) if len > 0 && base != usize::MAX => {
-                    let first = st / 4096;
-                    let last = st.saturating_add(len - 1) / 4096;
-                    p >= s && p < s + n && (p - s) >= first && (p - s) <= last
-                }
-                _ => false,
-            };
-            if base != usize::MAX {
-                assert!(after == (before || touched), "C15: exactly the bits of the touched pages are set (bit gpa/4096, LSB first), no other bit changes");
-            } else {
-                assert!(!before || after, "C15: bits are never cleared");
-            }
-            assert!(log[0].load(Ordering::Relaxed) == init[0] && log[5].load(Ordering::Relaxed) == init[5], "C15: nothing outside the log mapping is touched");
-            // dirty_at agrees with the log for in-range offsets of the region
-            let probe: usize = kani::any();
-            kani::assume(probe < n * 4096);
-            let pp = s + probe / 4096;
-            assert!(b.dirty_at(probe) == (log[1 + pp / 8].load(Ordering::Relaxed) & (1 << (pp % 8)) != 0), "C15: dirty_at reads the bit of the page");
-        }
+    kani::assume(n >= 1 && n <= 32 && s <= 31 && s + n <= 32); // what AtomicBitmapMmap::new accepts for this log
+    let bm = ManuallyDrop::new(AtomicBitmapMmap { logmem: Arc::clone(&logmem), pages_before_region: s, number_of_pages: n });
+    let off: usize = kani::any();
+    let len: usize = kani::any();
+    bm.mark_dirty(off, len);
+    // oracle: pages of the region touched by the byte range [off, off+len) (saturating at usize::MAX)
+    let p: usize = kani::any();
+    kani::assume(p < 32);
+    let before = init[1 + p / 8] & (1 << (p % 8)) != 0;
+    let after = log[1 + p / 8].load(Ordering::Relaxed) & (1 << (p % 8)) != 0;
+    let touched = len > 0 && p >= s && p < s + n && {
+        let first = off / 4096;
+        let last = off.saturating_add(len - 1) / 4096;
+        (p - s) >= first && (p - s) <= last
+    };
+    kani::cover!(touched && !before && n > 9);
+    assert!(after == (before || touched), "C15: exactly the bits of the touched pages are set (bit gpa/4096, least-significant bit first), no other bit changes");
+    assert!(log[0].load(Ordering::Relaxed) == init[0] && log[5].load(Ordering::Relaxed) == init[5], "C15: nothing outside the log mapping is touched");
+    // dirty_at reads the bit of the page an in-range offset belongs to; out-of-range offsets are clean
+    let probe: usize = kani::any();
+    let d = bm.dirty_at(probe);
+    if probe / 4096 < n {
+        let pp = s + probe / 4096;
+        assert!(d == (log[1 + pp / 8].load(Ordering::Relaxed) & (1 << (pp % 8)) != 0), "C15: dirty_at reads the page's bit");
+    } else {
+        assert!(!d);
     }
+}
+
+// @harness props=C15 tier=quick reach=off timeout=600 bound="BitmapMmapRegion (shared, lock-protected handle): slice_at(base) then mark_dirty(offset, len) over ALL usize base/offset/len for a 3-page region at page 2; replace() at run time; absent bitmap = no-op" stubs="handle_alloc_error"
+#[kani::proof]
+#[kani::unwind(6)]
+#[kani::stub(std::alloc::handle_alloc_error, no_alloc_error)]
+fn c15_u_region_slice() {
+    let init: [u8; 6] = kani::any();
+    let log = mk_log(&init);
+    // SAFETY: in bounds of `log`
+    let logmem = ManuallyDrop::new(Arc::new(MmapLogReg { addr: unsafe { log.as_ptr().add(1) }, len: 4 }));
+    let (s, n) = (2usize, 3usize);
+    let b = ManuallyDrop::new(BitmapMmapRegion::default());
+    // before SET_LOG_BASE there is no bitmap: writes are not logged, nothing is dirty
+    b.mark_dirty(kani::any(), kani::any());
+    assert!(!b.dirty_at(kani::any()));
+    assert!(log[1].load(Ordering::Relaxed) == init[1] && log[2].load(Ordering::Relaxed) == init[2]);
+    // run-time replacement (what SET_LOG_BASE does for every region)
+    b.replace(AtomicBitmapMmap { logmem: Arc::clone(&logmem), pages_before_region: s, number_of_pages: n });
+    let base: usize = kani::any();
+    let sl = ManuallyDrop::new(b.slice_at(base));
+    let off: usize = kani::any();
+    let len: usize = kani::any();
+    sl.mark_dirty(off, len);
+    let p: usize = kani::any();
+    kani::assume(p < 32);
+    let before = init[1 + p / 8] & (1 << (p % 8)) != 0;
+    let after = log[1 + p / 8].load(Ordering::Relaxed) & (1 << (p % 8)) != 0;
+    // a slice whose base does not overflow addresses bytes base+off..; an overflowing start touches nothing
+    let touched = match base.checked_add(off) {
+        Some(st) if len > 0 => {
+            let first = st / 4096;
+            let last = st.saturating_add(len - 1) / 4096;
+            p >= s && p < s + n && (p - s) >= first && (p - s) <= last
+        }
+        _ => false,
+    };
+    kani::cover!(touched && !before);
+    assert!(after == (before || touched), "C15: a write through a region slice marks exactly the pages it touches");
+    assert!(log[0].load(Ordering::Relaxed) == init[0] && log[5].load(Ordering::Relaxed) == init[5], "C15: guards untouched");
 }
